@@ -64,7 +64,8 @@ class FakeInverter:
         self.es_info = None  # bytes-like for ES device info
         self.es_runtime = None
         self.es_settings = None  # list of byte items (mutable)
-        inv._read_from_socket = self.handle
+        if inv is not None:
+            inv._read_from_socket = self.handle
 
     # -- register file ---------------------------------------------------------------------------------------
     def get(self, addr):
@@ -219,3 +220,66 @@ def drive(coro):
 def const_crc(_data):
     """CRC stand-in for the shimmed copy in API-level harnesses (the CRC itself is the subject of C01/K-CRC)."""
     return 0
+
+
+class World:
+    """One simulated device behind *every* protocol object of the process: ProtocolCommand.execute is replaced (class
+    level) so that goodwe.connect()/discover() and inverter objects they create all talk to it.  The real
+    Inverter._read_from_socket (failure counting) stays in place.
+
+    device: dict(family='ET'|'DT'|'ES', serial=..., ...) — a probe of another family (other comm address / register
+    space) gets no answer (MaxRetriesException, as the real execute() gives after its retries)."""
+
+    def __init__(self, M, device, default=lambda a: 1, refuse=None, crc=None):
+        from . import models
+        self.M, self.device = M, device
+        self.fake = FakeInverter(M, None, default=default, refuse=refuse, crc=crc)
+        fam = device["family"]
+        serial = device.get("serial", "95048ESU218W0001")
+        if fam == "ET":
+            self.fake.write_bytes(0x88b8, models.et_info_bytes(serial, device.get("rated_power", 10000)))
+        elif fam == "DT":
+            self.fake.write_bytes(0x7531, models.dt_info_bytes(serial))
+        self.fake.es_info = models.es_info_bytes(serial, device.get("firmware", "2323G"))
+        self.fake.es_runtime = bytes(142)
+        self.fake.es_settings = list(bytes(86))
+        self.protocols = []
+        self._orig = None
+
+    def answers(self, command):
+        P = self.M.protocol
+        fam = self.device["family"]
+        req = command.request
+        if isinstance(command, P.Aa55ProtocolCommand):
+            f = _items(req)
+            if (_cint(f[4]), _cint(f[5])) == (0x01, 0x02):
+                return True   # every family answers the AA55 discovery / device info probe
+            return fam == "ES"
+        if isinstance(command, (P.ModbusRtuProtocolCommand, P.ModbusTcpProtocolCommand)):
+            f = _items(req)
+            comm = _cint(f[0] if isinstance(command, P.ModbusRtuProtocolCommand) else f[6])
+            addr = command.first_address
+            if fam == "DT":
+                return comm == 0x7f and (30000 <= addr < 31000 or 40000 <= addr < 42000)
+            if fam == "ET":
+                return comm == 0xf7 and 35000 <= addr < 49000
+            return comm == 0xf7 and 47000 <= addr < 48000  # ES: eco mode v2 registers over Modbus
+        return True
+
+    def __enter__(self):
+        world = self
+        PC = self.M.protocol.ProtocolCommand
+        self._orig = PC.execute
+
+        async def execute(cmd, protocol):
+            if protocol not in world.protocols:
+                world.protocols.append(protocol)
+            if not world.answers(cmd):
+                world.fake.log.append(("unanswered", type(cmd).__name__))
+                raise world.M.exceptions.MaxRetriesException()
+            return await world.fake.handle(cmd)
+        PC.execute = execute
+        return self
+
+    def __exit__(self, *a):
+        self.M.protocol.ProtocolCommand.execute = self._orig
